@@ -279,6 +279,10 @@ type Frame interface {
 
 // A Framer reads and writes Frames.
 type Framer struct {
+	// lastReadType is the type of the frame header most recently read by
+	// ReadFrame, also when ReadFrame then returned an error for that frame.
+	lastReadType FrameType
+
 	r         io.Reader
 	lastFrame Frame
 	errDetail error
@@ -491,6 +495,7 @@ func (fr *Framer) ReadFrame() (Frame, error) {
 	if err != nil {
 		return nil, err
 	}
+	fr.lastReadType = fh.Type
 	if fh.Length > fr.maxReadSize {
 		return nil, ErrFrameTooLarge
 	}
